@@ -312,7 +312,7 @@ fn follow_code(f: Follow) -> u8 { match f { Follow::Never => 0, Follow::Roots =>
 /// Leading -H/-L/-P/-O* set the follow mode and are consumed, "--" ends them; operands run up to the first token that starts an
 /// expression; they are kept in order and spelled as given; none => "."; the rest goes to the expression parser.
 #[kani::proof]
-#[kani::unwind(4)]
+#[kani::unwind(7)]
 #[kani::stub(alloc::fmt::format, fmt_stub)]
 #[kani::stub(alloc::raw_vec::handle_error, he_stub)]
 #[kani::stub(std::alloc::handle_alloc_error, hae_stub)]
@@ -346,7 +346,7 @@ fn c18_parse_args_two_tokens() {
     }
 }
 #[kani::proof]
-#[kani::unwind(4)]
+#[kani::unwind(7)]
 #[kani::stub(alloc::fmt::format, fmt_stub)]
 #[kani::stub(alloc::raw_vec::handle_error, he_stub)]
 #[kani::stub(std::alloc::handle_alloc_error, hae_stub)]
@@ -360,3 +360,113 @@ fn c18_parse_args_two_tokens_canary() {
         Err(e) => { std::mem::forget(e); }
     }
 }
+
+// ---------------------------------------------------------------------------------------------
+// C18/C02: do_find's loop over starting points (parse_args and process_dir abstracted)
+// ---------------------------------------------------------------------------------------------
+const DF_MAX: usize = 3;
+static mut DF_N: usize = 0;
+static mut DF_CALLS: usize = 0;
+static mut DF_SEEN: [u8; DF_MAX] = [0; DF_MAX];
+static mut DF_CODES: [i32; DF_MAX] = [0; DF_MAX];
+static mut DF_QUITS: [bool; DF_MAX] = [false; DF_MAX];
+static mut DF_HELP: bool = false;
+fn parse_args_script(_args: &[&str]) -> Result<ParsedInfo, Box<dyn Error>> {
+    let mut paths: Vec<String> = Vec::with_capacity(DF_MAX);
+    unsafe {
+        if DF_N >= 1 { paths.push(String::from("a")); }
+        if DF_N >= 2 { paths.push(String::from("b")); }
+        if DF_N >= 3 { paths.push(String::from("c")); }
+    }
+    let mut config = Config::default();
+    unsafe { config.help_requested = DF_HELP; }
+    Ok(ParsedInfo { matcher: Box::new(VerifTrue), paths, config })
+}
+fn process_dir_script(dir: &str, _c: &Config, _d: &dyn Dependencies, _m: &dyn matchers::Matcher, quit: &mut bool) -> i32 {
+    unsafe {
+        let i = DF_CALLS; DF_CALLS += 1;
+        if i < DF_MAX { DF_SEEN[i] = dir.as_bytes()[0]; if DF_QUITS[i] { *quit = true; } DF_CODES[i] } else { 0 }
+    }
+}
+fn print_help_cut() {}
+
+fn run_do_find<const N: usize>(canary: bool) {
+    unsafe {
+        DF_N = N;
+        DF_CALLS = 0; DF_SEEN = [0; DF_MAX];
+        DF_CODES = kani::any(); DF_QUITS = kani::any(); DF_HELP = kani::any();
+        kani::assume(DF_CODES[0] >= 0 && DF_CODES[0] <= 2 && DF_CODES[1] >= 0 && DF_CODES[1] <= 2 && DF_CODES[2] >= 0 && DF_CODES[2] <= 2);
+    }
+    let deps = Deps::new();
+    let r = do_find(&["x"], &deps);
+    unsafe {
+        match r {
+            Ok(code) => {
+                if DF_HELP { assert!(DF_CALLS == 0 && code == 0); return; }
+                if canary { assert!(code == DF_CODES[DF_N - 1]); return; } // "the last starting point decides the status": must FAIL
+                // expected: walk in order until a quit
+                let mut want_calls = 0usize; let mut quit = false; let mut failed = false;
+                let mut i = 0;
+                while i < DF_MAX {
+                    if i < DF_N && !quit {
+                        want_calls += 1;
+                        if DF_CODES[i] != 0 { failed = true; }
+                        if DF_QUITS[i] { quit = true; }
+                    }
+                    i += 1;
+                }
+                assert!(DF_CALLS == want_calls);
+                let names = [b'a', b'b', b'c'];
+                let mut i = 0;
+                while i < DF_MAX { if i < want_calls { assert!(DF_SEEN[i] == names[i]); } i += 1; }
+                assert!((code != 0) == failed);
+                kani::cover!(want_calls == 3 && failed && DF_CODES[2] == 0);
+                kani::cover!(want_calls == 1 && DF_N == 3);
+                kani::cover!(want_calls == 3 && !failed);
+            }
+            Err(e) => { std::mem::forget(e); assert!(false); }
+        }
+    }
+}
+
+// @harness props=C18,C02,C01 tier=quick cost=60 flags=nomem
+// @exec do_find (loop over starting points, exit-status accumulation, stop after -quit, -help short-cut)
+// @sym exactly 3 starting points (2: c18_do_find_loop2); per starting point the status process_dir returns (0..2) and whether the expression quit; help flag
+// @bounds at most 3 starting points; parse_args and process_dir replaced by scripts (their own behaviour: c18_parse_args_two_tokens, c03_walk_loop*)
+// @replay do_find_loop
+/// Starting points are walked one after another in the order given; a failing one makes the exit status non-zero and does not
+/// prevent the others from being processed; after -quit no further starting point is walked.
+#[kani::proof]
+#[kani::unwind(5)]
+#[kani::stub(alloc::fmt::format, fmt_stub)]
+#[kani::stub(alloc::raw_vec::handle_error, he_stub)]
+#[kani::stub(std::alloc::handle_alloc_error, hae_stub)]
+#[kani::stub(parse_args, parse_args_script)]
+#[kani::stub(process_dir, process_dir_script)]
+#[kani::stub(print_help, print_help_cut)]
+#[kani::stub(print_version, print_help_cut)]
+fn c18_do_find_loop() { run_do_find::<3>(false); }
+#[kani::proof]
+#[kani::unwind(5)]
+#[kani::stub(alloc::fmt::format, fmt_stub)]
+#[kani::stub(alloc::raw_vec::handle_error, he_stub)]
+#[kani::stub(std::alloc::handle_alloc_error, hae_stub)]
+#[kani::stub(parse_args, parse_args_script)]
+#[kani::stub(process_dir, process_dir_script)]
+#[kani::stub(print_help, print_help_cut)]
+#[kani::stub(print_version, print_help_cut)]
+fn c18_do_find_loop_canary() { run_do_find::<3>(true); }
+// @harness props=C18,C02 tier=quick cost=40 flags=nomem
+// @exec do_find with exactly 2 starting points
+// @sym as c18_do_find_loop
+// @bounds 2 starting points
+#[kani::proof]
+#[kani::unwind(5)]
+#[kani::stub(alloc::fmt::format, fmt_stub)]
+#[kani::stub(alloc::raw_vec::handle_error, he_stub)]
+#[kani::stub(std::alloc::handle_alloc_error, hae_stub)]
+#[kani::stub(parse_args, parse_args_script)]
+#[kani::stub(process_dir, process_dir_script)]
+#[kani::stub(print_help, print_help_cut)]
+#[kani::stub(print_version, print_help_cut)]
+fn c18_do_find_loop2() { run_do_find::<2>(false); }
